@@ -72,3 +72,200 @@ pub mod crypto {
         crate::config::EndpointConfigBuilder::verif_generate_cert(&keypair, server_name)
     }
 }
+
+/// The message codecs over arbitrary byte streams.
+pub mod wire {
+    use crate::network::verif_exports as w;
+    use crate::{types::Version, Config, Request, Response, Result};
+    use bytes::Bytes;
+    use tokio::io::{AsyncRead, AsyncWrite};
+    use tokio_util::codec::{FramedRead, FramedWrite, LengthDelimitedCodec};
+
+    pub fn network_message_frame_codec(config: &Config) -> LengthDelimitedCodec {
+        w::network_message_frame_codec(config)
+    }
+
+    pub async fn read_version_frame<T: AsyncRead + Unpin>(recv: &mut T) -> Result<Version> {
+        w::read_version_frame(recv).await
+    }
+
+    pub async fn write_version_frame<T: AsyncWrite + Unpin>(
+        send: &mut T,
+        version: Version,
+    ) -> Result<()> {
+        w::write_version_frame(send, version).await
+    }
+
+    pub async fn write_request<T: AsyncWrite + Unpin>(
+        send: &mut FramedWrite<T, LengthDelimitedCodec>,
+        request: Request<Bytes>,
+    ) -> Result<()> {
+        w::write_request(send, request).await
+    }
+
+    pub async fn write_response<T: AsyncWrite + Unpin>(
+        send: &mut FramedWrite<T, LengthDelimitedCodec>,
+        response: Response<Bytes>,
+    ) -> Result<()> {
+        w::write_response(send, response).await
+    }
+
+    pub async fn read_request<T: AsyncRead + Unpin>(
+        recv: &mut FramedRead<T, LengthDelimitedCodec>,
+    ) -> Result<Request<Bytes>> {
+        w::read_request(recv).await
+    }
+
+    pub async fn read_response<T: AsyncRead + Unpin>(
+        recv: &mut FramedRead<T, LengthDelimitedCodec>,
+    ) -> Result<Response<Bytes>> {
+        w::read_response(recv).await
+    }
+}
+
+/// Direct drive of the active-peer set with real connections.
+pub mod peers {
+    use crate::network::verif_exports::{handshake, ActivePeers};
+    use crate::{
+        config::EndpointConfig,
+        connection::Connection,
+        endpoint::Endpoint,
+        types::{DisconnectReason, PeerEvent},
+        ConnectionOrigin, PeerId, Result,
+    };
+    use std::net::SocketAddr;
+    use std::sync::Arc;
+    use tokio::sync::broadcast;
+
+    /// A bare anemo endpoint (no connection manager).
+    #[derive(Clone)]
+    pub struct RawEndpoint(Arc<Endpoint>);
+
+    impl RawEndpoint {
+        pub fn new(
+            private_key: [u8; 32],
+            server_name: &str,
+            socket: std::net::UdpSocket,
+        ) -> Result<Self> {
+            let config = EndpointConfig::builder()
+                .server_name(server_name)
+                .private_key(private_key)
+                .build()?;
+            Ok(Self(Arc::new(Endpoint::new(config, socket)?)))
+        }
+
+        pub fn peer_id(&self) -> PeerId {
+            self.0.peer_id()
+        }
+
+        pub fn local_addr(&self) -> SocketAddr {
+            self.0.local_addr()
+        }
+
+        pub async fn connect(&self, addr: SocketAddr) -> Result<Conn> {
+            Ok(Conn(self.0.connect(addr)?.await?))
+        }
+
+        pub async fn accept(&self) -> Option<Result<Conn>> {
+            match self.0.accept().await {
+                Some(connecting) => Some(connecting.await.map(Conn)),
+                None => None,
+            }
+        }
+
+        pub fn close(&self) {
+            self.0.close()
+        }
+    }
+
+    /// An established connection.
+    #[derive(Clone)]
+    pub struct Conn(Connection);
+
+    impl Conn {
+        pub fn peer_id(&self) -> PeerId {
+            self.0.peer_id()
+        }
+
+        pub fn origin(&self) -> ConnectionOrigin {
+            self.0.origin()
+        }
+
+        pub fn stable_id(&self) -> usize {
+            self.0.stable_id()
+        }
+
+        pub fn close(&self) {
+            self.0.close()
+        }
+
+        /// `true` once the connection has been closed by either side.
+        pub fn is_closed(&self) -> bool {
+            use futures::FutureExt;
+            matches!(self.0.accept_uni().now_or_never(), Some(Err(_)))
+        }
+
+        /// anemo's post-TLS acknowledgement exchange.
+        pub async fn handshake(self) -> Result<Conn> {
+            handshake(self.0).await.map(Conn)
+        }
+    }
+
+    /// A stand-alone active-peer set.
+    #[derive(Clone)]
+    pub struct ActivePeersHandle(ActivePeers);
+
+    impl ActivePeersHandle {
+        pub fn new(channel_size: usize) -> Self {
+            Self(ActivePeers::new(channel_size))
+        }
+
+        /// Returns `true` if the connection was kept (a request handler would be started for it).
+        pub fn add(&self, own_peer_id: &PeerId, connection: &Conn) -> bool {
+            self.0.verif_add(own_peer_id, connection.0.clone()).is_some()
+        }
+
+        pub fn remove(&self, peer_id: &PeerId, reason: DisconnectReason) {
+            self.0.remove(peer_id, reason)
+        }
+
+        pub fn remove_with_stable_id(
+            &self,
+            peer_id: PeerId,
+            stable_id: usize,
+            reason: DisconnectReason,
+        ) {
+            self.0.remove_with_stable_id(peer_id, stable_id, reason)
+        }
+
+        pub fn subscribe(&self) -> (broadcast::Receiver<PeerEvent>, Vec<PeerId>) {
+            self.0.subscribe()
+        }
+
+        pub fn peers(&self) -> Vec<PeerId> {
+            self.0.peers()
+        }
+
+        pub fn get_stable_id(&self, peer_id: &PeerId) -> Option<usize> {
+            self.0.get(peer_id).map(|c| c.stable_id())
+        }
+
+        pub fn len(&self) -> usize {
+            self.0.verif_len()
+        }
+
+        pub fn is_empty(&self) -> bool {
+            self.len() == 0
+        }
+    }
+
+    /// The simultaneous-dial decision: `true` = drop the existing connection, keep the new one.
+    pub fn tie_break(
+        own: &PeerId,
+        remote: &PeerId,
+        existing: ConnectionOrigin,
+        new: ConnectionOrigin,
+    ) -> bool {
+        ActivePeers::verif_tie_break(own, remote, existing, new)
+    }
+}
